@@ -114,11 +114,14 @@ pub enum Prov {
     /// deserialised from a stored artefact in which one aligned block (32, 64 or 128 bytes) was never
     /// written and reads back as zero; `stream[1]` selects size and position
     FromBytesZeroBlock,
+    /// deserialised from a stored artefact whose write onto a fresh (zero-filled) medium was torn after
+    /// `k` bytes: the first k bytes are new, the rest reads back as zero; k = `stream[2..4]` (little endian)
+    FromBytesTornOverZero,
 }
 
 impl Prov {
     pub fn faulted(&self) -> bool {
-        matches!(self, Prov::FromBytesZeroPrefix | Prov::FromBytesLostZero | Prov::FromBytesLostFF | Prov::FromBytesBitRot | Prov::FromBytesZeroBlock)
+        matches!(self, Prov::FromBytesZeroPrefix | Prov::FromBytesLostZero | Prov::FromBytesLostFF | Prov::FromBytesBitRot | Prov::FromBytesZeroBlock | Prov::FromBytesTornOverZero)
     }
 }
 
@@ -133,6 +136,11 @@ pub fn storage_fault(prov: Prov, bytes: &mut [u8], rot_lo: usize, rot_hi: usize,
             let size = [32usize, 64, 128][sel % 3];
             let off = (size * ((sel / 3) % 8)).min(bytes.len() - size);
             bytes[off..off + size].iter_mut().for_each(|b| *b = 0);
+        }
+        Prov::FromBytesTornOverZero => {
+            let k = u16::from_le_bytes([stream.get(2).copied().unwrap_or(1), stream.get(3).copied().unwrap_or(0)]) as usize;
+            let k = k.clamp(1, bytes.len());
+            bytes[k..].iter_mut().for_each(|b| *b = 0);
         }
         Prov::FromBytesBitRot => {
             for (i, ch) in stream.chunks(4).take(6).enumerate() {
@@ -348,7 +356,7 @@ macro_rules! set_impl {
                                 .map_err(|e| format!("harness: round trip failed: {e}"))?;
                             Ok(sk2.clone())
                         }
-                        Prov::FromBytesZeroPrefix | Prov::FromBytesLostZero | Prov::FromBytesBitRot | Prov::FromBytesZeroBlock => {
+                        Prov::FromBytesZeroPrefix | Prov::FromBytesLostZero | Prov::FromBytesBitRot | Prov::FromBytesZeroBlock | Prov::FromBytesTornOverZero => {
                             let mut b = KG::keygen_from_seed(&c.seed).1.into_bytes();
                             // bit rot only where every value is valid: rho, K, tr and the t0 region
                             let (s0, s1) = INFO.s_region();
@@ -382,7 +390,7 @@ macro_rules! set_impl {
                                 .map_err(|e| format!("harness: round trip failed: {e}"))?;
                             Ok(sk2.get_public_key())
                         }
-                        Prov::FromBytesZeroPrefix | Prov::FromBytesLostZero | Prov::FromBytesLostFF | Prov::FromBytesBitRot | Prov::FromBytesZeroBlock => {
+                        Prov::FromBytesZeroPrefix | Prov::FromBytesLostZero | Prov::FromBytesLostFF | Prov::FromBytesBitRot | Prov::FromBytesZeroBlock | Prov::FromBytesTornOverZero => {
                             let mut b = KG::keygen_from_seed(&c.seed).0.into_bytes();
                             storage_fault(c.prov, &mut b, 0, m::PK_LEN, &c.stream);
                             PublicKey::try_from_bytes(b).map_err(|_| "unavailable: faulted public key is rejected".to_string())
